@@ -26,6 +26,9 @@ _CMG_LOOP = ("    while augmenting_path_for(residual_graph):\n        path = aug
              "        delta = min(residual_function[u][v] for (u, v) in path)\n"
              "        for (u, v) in path:\n" + _CMG_UPD)
 
+_APWS = ("        try:\n            self.existing_shares[peerid].add(shnum)\n        except KeyError:\n"
+         "            self.existing_shares[peerid] = set([shnum])\n")
+
 MUTANTS = [
     # ---- C07.1 R9 loop-escape alias
     M("r9-row-list-hoisted", HU,
@@ -376,6 +379,67 @@ MUTANTS = [
       "            for bucket in sorted(res):\n                self.peer_selector.add_peer_with_share(tracker.get_serverid(), bucket)\n", None),
     M("vanish-allocation-for", UP, "    def _allocation_for(self, tracker):", "    def _allocation_forX(self, tracker):", "ANALYSIS-ERROR",
       edits=[(UP, "                shares_to_ask = self._allocation_for(tracker)\n", "                shares_to_ask = self._allocation_forX(tracker)\n")]),
+
+    # ---- C07.14 the selector keeps what it is told
+    M("record-setdefault-first-share-only", UP, _APWS,
+      "        self.existing_shares.setdefault(peerid, set([shnum]))\n", "C07.14",
+      note="seeded C07-F: only the first share reported per server is kept"),
+    M("record-into-throwaway-set", UP, _APWS,
+      "        self.existing_shares.get(peerid, set()).add(shnum)\n", "C07.14",
+      note="a server without an entry gets the share added to a default that is thrown away"),
+    M("record-overwrites-earlier-shares", UP, _APWS,
+      "        self.existing_shares[peerid] = set([shnum])\n", "C07.14",
+      note="only the last share reported per server is kept"),
+    M("record-first-share-forgotten", UP, "            self.existing_shares[peerid] = set([shnum])\n",
+      "            self.existing_shares[peerid] = set()\n", "C07.14",
+      note="the entry is created but the share that caused it is not put in"),
+    M("record-guard-swallows-known-server", UP, _APWS,
+      "        if peerid not in self.existing_shares:\n            self.existing_shares[peerid] = set([shnum])\n", "C07.14"),
+    M("record-relation-shared-by-class", UP, "        self.existing_shares = {}\n        self.peers = set()\n",
+      "        self.peers = set()\n", "C07.14",
+      edits=[(UP, "class PeerSelector:\n\n", "class PeerSelector:\n    existing_shares = {}\n\n")],
+      note="one relation for all uploads: servers are credited with shares of other files"),
+    M("record-add-peer-capped", UP, "    def add_peer(self, peerid):\n        self.peers.add(peerid)\n",
+      "    def add_peer(self, peerid):\n        if len(self.peers) < self.total_shares:\n            self.peers.add(peerid)\n", "C07.14",
+      note="candidates beyond N are dropped before it is known which of them are full / read-only"),
+    M("record-bad-readonly-peer-kept", UP, "            self.readonly_peers.remove(peerid)\n            self.bad_peers.add(peerid)\n",
+      "            self.bad_peers.add(peerid)\n", "C07.14"),
+    M("record-benign-setdefault-add", UP, _APWS,
+      "        self.existing_shares.setdefault(peerid, set()).add(shnum)\n", None),
+    M("record-benign-membership-test", UP, _APWS,
+      "        if peerid not in self.existing_shares:\n            self.existing_shares[peerid] = set()\n"
+      "        self.existing_shares[peerid].add(shnum)\n", None),
+    M("record-benign-get-or-none", UP, _APWS,
+      "        held = self.existing_shares.get(peerid)\n        if held is None:\n            self.existing_shares[peerid] = {shnum}\n"
+      "        else:\n            held.add(shnum)\n", None),
+    M("record-benign-get-default-store-back", UP, _APWS,
+      "        held = self.existing_shares.get(peerid, set())\n        held.add(shnum)\n        self.existing_shares[peerid] = held\n", None),
+    M("record-benign-union", UP, _APWS,
+      "        self.existing_shares[peerid] = self.existing_shares.get(peerid, set()) | {shnum}\n", None),
+    M("record-benign-broader-handler-negated-test", UP, _APWS,
+      "        if not peerid in self.existing_shares:\n            self.existing_shares[peerid] = set()\n"
+      "        try:\n            self.existing_shares[peerid] |= {shnum}\n        except Exception:\n"
+      "            self.existing_shares[peerid] = set((shnum,))\n", None),
+    M("record-benign-bad-peer-discard", UP,
+      "        if peerid in self.peers:\n            self.peers.remove(peerid)\n            self.bad_peers.add(peerid)\n"
+      "        elif peerid in self.readonly_peers:\n            self.readonly_peers.remove(peerid)\n            self.bad_peers.add(peerid)\n",
+      "        if peerid in self.peers or peerid in self.readonly_peers:\n            self.bad_peers.add(peerid)\n"
+      "        self.peers.discard(peerid)\n        self.readonly_peers.discard(peerid)\n", None),
+    M("vanish-add-peer-with-share", UP, "    def add_peer_with_share(self, peerid, shnum):", "    def add_peer_with_shareX(self, peerid, shnum):",
+      "ANALYSIS-ERROR"),
+
+    # ---- C07.1 (extended): one object under several keys, changed through the container
+    M("alias-shared-slot-through-container", UP,
+      "        preexisting = dictutil.DictOfSets()\n        for server, shares in self.existing_shares.items():\n"
+      "            for share in shares:\n                preexisting.add(share, server)\n",
+      "        preexisting = {}\n        holders = set()\n        for server, shares in self.existing_shares.items():\n"
+      "            for share in shares:\n                preexisting.setdefault(share, holders).add(server)\n", "C07.1",
+      note="the default set is created once: every share number maps to the same set of servers"),
+    M("alias-benign-slot-object-per-key", UP,
+      "        preexisting = dictutil.DictOfSets()\n        for server, shares in self.existing_shares.items():\n"
+      "            for share in shares:\n                preexisting.add(share, server)\n",
+      "        preexisting = {}\n        for server, shares in self.existing_shares.items():\n"
+      "            for share in shares:\n                holders = set()\n                preexisting.setdefault(share, holders).add(server)\n", None),
 
     # ---- vanished anchors
     M("vanish-flow-graph", HU, "def _servermap_flow_graph(peers, shares, servermap):", "def _servermap_flow_graphX(peers, shares, servermap):",
